@@ -235,8 +235,11 @@ class ClusterView:
     watcher epoch (etcd history inside the range, deliveries as logged by the fake, joins,
     leaves, quiescent points).  Key ids: index in the case's own key list."""
 
+    JOIN_HEAD = False     # set by regen(): the tree's Registry.Monitor has the shape of the KNOWN finding C13-join-replay-overtakes-event
+
     def __init__(self, case, obs, exclude=()):
         obs = copy.deepcopy(obs)          # never touch the executor's observation
+        drop_after_obs = []               # (watcher, sid): suspect joiners whose key -> value bindings deviate from the registry
         exclude = set(exclude)            # subscribers left out of the rendering (known(): everything ELSE must be right)
         self.keys = {}
         self.case = case
@@ -420,6 +423,18 @@ class ClusterView:
                         m.pop(r[1], None)
                 return m
 
+            def deviates(sid, w):
+                """a suspect joiner (known-finding family, HEAD's Monitor shape only) whose key -> value bindings - computed from
+                the calls it received - differ from the registry's copy at the end of the join step.  The difference may be
+                invisible in Values() (another key carries the same value): the model, given the intended atomic join, cannot
+                reproduce what such a joiner does LATER (its notification views), so it is judged at the join step - where a
+                visible deviation fails prop_ok and goes through known() - and left out of the thread afterwards."""
+                so = st["subs"].get(str(sid))
+                if not self.JOIN_HEAD or so is None or sid in exclude:
+                    return False
+                reg = dict((k, v) for k, v in (st["state"].get(cl_tag(*W[w])) or {}).get("values") or [])
+                return believed(so.get("rec") or []) != reg
+
             def join(sid, w, mode, excl, normalise=False, atomic=False):
                 if sid in exclude:
                     return
@@ -470,6 +485,8 @@ class ClusterView:
                                                   "evs": [(e[1], e[2], e[3]) for e in evs],
                                                   "keys": sorted(set(e[2] for e in evs))})
                         join(f["sid"], w[0], a["mode"], a["excl"], normalise=True, atomic=sus)
+                        if sus and deviates(f["sid"], w[0]):
+                            drop_after_obs.append((w[0], f["sid"]))
                         if sus and f["sid"] not in exclude and str(f["sid"]) in st["subs"]:
                             # its notifications of this step follow the real replay order: not compared
                             st["subs"][str(f["sid"])]["notes"] = []
@@ -497,6 +514,8 @@ class ClusterView:
                                               "before": dict((k, snapshot_before[op[2]][k]) for k in touched)})
                     join(op[1], op[2], "rec", op[3], normalise=True, atomic=sus)
                     cur[op[2]]["ops"][-1]["jn"] = 1
+                    if sus and deviates(op[1], op[2]):
+                        drop_after_obs.append((op[2], op[1]))
             elif name == "unsub":
                 leave(op[1])
             elif name == "unspy":
@@ -521,6 +540,12 @@ class ClusterView:
                     self.feats.add("watched_key_without_stream")
                 th["ops"].append({"d": "obs", "n": n, "lag": bool(paused), "rv": rv, "cs": cs,
                                   "nl": ws.get("listeners"), "want_nl": len(members[w]) + 1})
+                for dw, dsid in [x for x in drop_after_obs if x[0] == w]:
+                    if dsid in members[w]:
+                        th["ops"].append({"d": "leave", "i": members[w].index(dsid)})
+                        members[w].remove(dsid)
+                        self.feats.add("deviating_suspect_joiner_left_out_after_join_step")
+                    drop_after_obs.remove((dw, dsid))
         for w, th in list(cur.items()):
             self.finish(th, W, muts)
         self.nmuts = len(muts)
@@ -615,6 +640,7 @@ class C13(Property):
         self.subset_size = val
         self.kube_replaces = replaces
         self.flags = dict(regen_constants.flags)
+        ClusterView.JOIN_HEAD = bool(self.flags.get("join_head"))
         return ["C13Consts.v %s: subsetSize=%s kubeOnAddReplaces=%s reloadWaitsOutsideLock=%s watchDoneBoundToGeneration=%s "
                 "setupWatchNeverCreatesWatcher=%s joinReplaysUnderLock=%s" % ("rewritten" if changed else "unchanged", val, replaces,
                                                       self.flags["reload_outside"], self.flags["done_bound"], not self.flags["setup_creates"],
@@ -1600,6 +1626,8 @@ class C13(Property):
         return ops
 
     # ------------------------------------------------------------------ execution
+    CHUNK = 1500
+
     def execute(self, cases, ctx):
         groups = {}
         for i, c in enumerate(cases):
@@ -1616,10 +1644,16 @@ class C13(Property):
                 e.pop("id", None)
                 d["seed"] = int(vlib.canon_hash(e), 16) % (1 << 31)   # rand.Shuffle depends on the case only
                 sub.append(d)
-            rc, out, rs = vlib.go_test_overlay(pkg, FILES, "TestVerifC13$", sub,
-                                               tag="c13" + pkg.replace("/", "_").replace(".", ""), timeout=900)
-            if rc != 0 or len(rs) != len(sub):
-                raise ExecError("c13 executor %s rc=%s (%d/%d results): %s" % (pkg, rc, len(rs), len(sub), out[-2500:]))
+            # at most CHUNK cases per go test: thorough and search volumes never come near the go-test timeout
+            rs = []
+            for lo in range(0, len(sub), self.CHUNK):
+                part = sub[lo:lo + self.CHUNK]
+                rc, out, prs = vlib.go_test_overlay(pkg, FILES, "TestVerifC13$", part,
+                                                    tag="c13" + pkg.replace("/", "_").replace(".", ""), timeout=900)
+                if rc != 0 or len(prs) != len(part):
+                    raise ExecError("c13 executor %s rc=%s (%d/%d results of chunk %d): %s"
+                                    % (pkg, rc, len(prs), len(part), lo // self.CHUNK, out[-2500:]))
+                rs += prs
             for i, r in zip(idx, rs):
                 r.pop("id", None)
                 res[i] = r
